@@ -39,8 +39,7 @@ func VerifH_C08_DeferredRaces() {
 	opB := vChoose("opB", 3)
 	vAssume(opA <= opB)
 	if vTier() == 1 {
-		// thorough: a third concurrent call, one of the two mutating operations (Put, or the
-		// Finalize/Close that ends the session)
+		// thorough: a third concurrent call, one of the two mutating operations
 		opC := []int{0, 2}[vChoose("opC", 2)]
 		vConcurrently(
 			func() { vDWOp(dw, opA, b1, first.c) },
@@ -53,6 +52,7 @@ func VerifH_C08_DeferredRaces() {
 			func() { vDWOp(dw, opB, b2, first.c) },
 		)
 	}
+
 	opNames := []string{"put", "has", "close"}
 	vRaceCheck("deferred-" + opNames[opA] + "-" + opNames[opB])
 	// outcome under whatever schedule ran: after Close, either nothing was ever put and no file
